@@ -21,7 +21,15 @@ def conc_world(ctx):
     return w
 
 
-def conc_family(name, mk_reqs):
+def conc_world_c1(ctx):
+    """conc_world plus an existing consumer holding VCPU on provider 1"""
+    w = conc_world(ctx)
+    w.allocation(1, 1, 'VCPU', present=True, used=1)
+    w.consumer(1, present=True, generation=ctx.int('cgen', 0))
+    return w
+
+
+def conc_family(name, mk_reqs, world=None):
     """removal of an entity racing a request that starts using it: after
     every schedule nothing dangles and the hierarchy is a forest"""
     from engine import app
@@ -32,7 +40,7 @@ def conc_family(name, mk_reqs):
         app.setup()
         reqs = mk_reqs()
         pre, results, final, sched, writes = conc.run_concurrent(
-            ctx, conc_world, reqs)
+            ctx, world or conc_world, reqs)
         for i, r in enumerate(results):
             if r.status >= 500:
                 runner.violation(ctx, 'no-5xx', '%s: %d' % (reqs[i].name,
@@ -61,6 +69,18 @@ def _reqs():
                     'VCPU': ctx.int('amt', 1)}}},
                 'project_id': 'proj', 'user_id': 'user',
                 'consumer_generation': None}, version='1.36'))
+
+    def delete_alloc():
+        return Req('delete_alloc', lambda ctx, w: app.call(
+            'DELETE', '/allocations/' + CONS(1), version='1.36'))
+
+    def put_alloc_existing(p):
+        return Req('put_alloc', lambda ctx, w: app.call(
+            'PUT', '/allocations/' + CONS(1), {
+                'allocations': {U(p): {'resources': {
+                    'VCPU': ctx.int('amt', 1)}}},
+                'project_id': 'proj', 'user_id': 'user',
+                'consumer_generation': ctx.int('cgen', 0)}, version='1.36'))
 
     def post_child(parent):
         return Req('post_child', lambda ctx, w: app.call(
@@ -134,6 +154,12 @@ def families(tier):
             R['delete_provider'](1), R['put_alloc'](1)]),
         conc_family('delete_provider+post_child', lambda: [
             R['delete_provider'](1), R['post_child'](1)]),
+        # removal of a consumer's allocations racing their replacement:
+        # whatever the two are answered, no allocation may be left without
+        # its consumer record
+        conc_family('delete_alloc+put_alloc(same consumer)', lambda: [
+            R['delete_alloc'](), R['put_alloc_existing'](1)],
+            world=conc_world_c1),
         # the replace-all write resolves the class inside its transaction
         # (unlike POST of one inventory, see the note below)
         conc_family('delete_class+put_inventories', lambda: [
